@@ -24,7 +24,7 @@ def write_mc_cfg(path, maxtop, maxnotes, maxops):
                 "  MaxOps = %d\nINVARIANT Inv\nPROPERTY ScanIdempotent\nCHECK_DEADLOCK FALSE\n" % (maxtop, maxnotes, maxops))
 
 
-def drive(ctx, bindir, name, histories, ops, mode, seed):
+def drive(ctx, bindir, name, histories, ops, mode, seed, binary="c01_driver"):
     path = ctx.path("trace_%s.ndjson" % name)
     if mode == "scenarios":
         args = [path, "scenarios"]
@@ -32,7 +32,7 @@ def drive(ctx, bindir, name, histories, ops, mode, seed):
         args = [path, "shard-scenarios", "5"]
     else:
         args = [path, str(histories), str(ops)] + ([mode] if mode else [])
-    lib.run_bin(os.path.join(bindir, "c01_driver"), args, env_extra={"VERIF_SEED": str(seed)}, timeout=3000)
+    lib.run_bin(os.path.join(bindir, binary), args, env_extra={"VERIF_SEED": str(seed)}, timeout=3000)
     return path
 
 
@@ -127,6 +127,18 @@ def run(ctx):
             ctx.add_sample(sample)
         if not validate(ctx, d, path, name):
             break
+    # the same driver compiled against the wallet crates WITH transparent-inputs (a configuration of the wallet
+    # the baseline suite never builds): the shielded ledger must be the same there
+    if not ctx.violations:
+        tbin = lib.cargo_build("h_wallet_t", ["c01_driver_t"])
+        for i, (name, hist, ops, mode) in enumerate([("t_base", 8, 70, None)] if ctx.quick() else
+                                                     [("t_base", 30, 90, None), ("t_ironwood", 20, 90, "ironwood"), ("t_scen", 0, 0, "scenarios")]):
+            path = drive(ctx, tbin, name, hist, ops, mode, ctx.seed * 100 + 50 + i, binary="c01_driver_t")
+            st, _ = trace_stats(path)
+            for k, v in st.items():
+                totals[k] = max(totals.get(k, 0), v) if k in ("max_height", "links_seen") else totals.get(k, 0) + v
+            if not validate(ctx, d, path, name):
+                break
     if totals.get("balance_checked", 0) < 50 or totals.get("fresh", 0) < 3 or totals.get("trunc_ok", 0) < 3:
         raise lib.ToolError("vacuity: the driver produced too few checked states: %s" % totals)
     ctx.extra["trace_stats"] = totals
